@@ -783,6 +783,11 @@ impl<W: Write> Interp<W> {
         let regs = &self.regs;
         let ticket = AtomicU64::new(0);
         let barrier = Barrier::new(thr.len());
+        // second, spinning phase of the start barrier: threads woken from the futex at different times wait here until
+        // all are running, so that their first calls really overlap
+        let ready = AtomicU64::new(0);
+        let ready = &ready;
+        let nthr = thr.len() as u64;
         let sl = &sl;
         let ticket = &ticket;
         let barrier = &barrier;
@@ -794,6 +799,12 @@ impl<W: Write> Interp<W> {
                     s.spawn(move || {
                         let mut lines = Vec::with_capacity(ops.len());
                         barrier.wait();
+                        ready.fetch_add(1, Ordering::AcqRel);
+                        let mut spins = 0_u64;
+                        while ready.load(Ordering::Acquire) < nthr && spins < 50_000_000 {
+                            core::hint::spin_loop();
+                            spins += 1;
+                        }
                         for (seq, op) in ops.iter().enumerate() {
                             let f: Vec<&str> = op.split(',').collect();
                             match f[0] {
